@@ -345,6 +345,44 @@ def rules(ck, P):
                         order.append(nm)
         ck.check(order == ["new_full", "set_zoom_min", "set_zoom_max", "intersect_geo_bbox", "add_border"], "R-SELECT", b["q"] + "|order",
                  "CLI selection narrows a full pyramid: zoom min, zoom max, geo bbox, then border", "CLI selection order is %s" % order, ir.loc(b))
+        # the border option widens all four sides by the same value; TileBBox::add_border subtracts on the min side, adds on the max side
+        ab = [n for n in ir.walk_nodes(b["body"]) if n.get("k") == "mcall" and (n.get("q") or "").endswith("TileBBoxPyramid::add_border")]
+        if ab:
+            hs = [ir.local_hid(a) for a in ab[0]["a"]]
+            src_ok = False
+            for n, parents, _ in ir.walk(b["body"]):
+                if n is ab[0]:
+                    for p_ in parents:
+                        if p_.get("k") == "if" and p_["c"].get("k") == "letx" and ir.place_str(p_["c"]["init"]).endswith("bbox_border"):
+                            src_ok = {x["hid"] for x in ir.pat_binds(p_["c"]["pat"])} == set(hs)
+            ck.check(len(hs) == 4 and len(set(hs)) == 1 and None not in hs and src_ok, "R-SELECT", b["q"] + "|border-args", "the border option is applied to all four sides",
+                     "add_border is not called with the bbox_border option on all four sides (%s)" % [ir.place_str(a) for a in ab[0]["a"]], ir.loc(ab[0]))
+        tb = [x for x in P.bodies if x["q"].endswith("tile_bbox::TileBBox::add_border")]
+        pb_ = [x for x in P.bodies if x["q"].endswith("TileBBoxPyramid::add_border")]
+        if ck.anchor("R-SELECT", "add_border implementations", tb + pb_, 2):
+            fwd = [n for n in ir.walk_nodes(pb_[0]["body"]) if n.get("k") == "mcall" and (n.get("q") or "").endswith("TileBBox::add_border")]
+            pn = [x["name"] for p_ in pb_[0]["params"] for x in ir.pat_binds(p_) if x["name"] != "self"]
+            ck.check(len(fwd) == 1 and [ir.place_str(a) for a in fwd[0]["a"]] == pn, "R-SELECT", "pyramid.add_border|forward", "the pyramid forwards (x_min, y_min, x_max, y_max) unchanged to every level",
+                     "pyramid add_border forwards %s for parameters %s" % ([ir.place_str(a) for a in fwd[0]["a"]] if fwd else None, pn), ir.loc(pb_[0]))
+            # per side: min sides move down (saturating), max sides move up (clamped to the grid)
+            from . import affine as A
+            t = tb[0]
+            sides = {}
+            for n in ir.walk_nodes(t["body"]):
+                if n.get("k") == "assign" and ir.place_str(n["l"]).startswith("self.") and ir.place_str(n["l"]).split(".")[1] in ("x_min", "y_min", "x_max", "y_max"):
+                    side = ir.place_str(n["l"]).split(".")[1]
+                    used = {ir.place_str(y) for y in ir.walk_nodes(n["r"]) if y.get("k") == "path" and y.get("r") == "local"}
+                    ops = {y.get("name") or y.get("op") for y in ir.walk_nodes(n["r"]) if y.get("k") in ("mcall", "bin")}
+                    sides[side] = (used, ops)
+            oks = len(sides) == 4
+            for side, (used, ops) in sides.items():
+                oks = oks and side in used and ("self" in used)
+                if side.endswith("min"):
+                    oks = oks and bool(ops & {"saturating_sub", "-", "checked_sub"}) and not (ops & {"+", "saturating_add"})
+                else:
+                    oks = oks and bool(ops & {"+", "saturating_add", "checked_add"}) and bool(ops & {"min"})
+            ck.check(oks, "R-SELECT", "bbox.add_border|sides", "each side moves outward by its own parameter (min sides subtract, max sides add and clamp to the grid)",
+                     "TileBBox::add_border does not move each side outward by its own parameter: %s" % {k: (sorted(v[0]), sorted(x for x in v[1] if x)) for k, v in sides.items()}, ir.loc(t))
         # narrowing calls pass the same-named option
         for n in ir.walk_nodes(b["body"]):
             if n.get("k") == "mcall" and (n.get("q") or "").endswith(("TileBBoxPyramid::set_zoom_min", "TileBBoxPyramid::set_zoom_max")):
